@@ -53,3 +53,47 @@ Definition k_set_union (s t: kv) : res kv :=
 
 Definition k_set_mem (s x: kv) : bool :=
   match s with KList l => existsb (kv_eqb x) l | _ => false end.
+
+(* ---- class objects (for CodeBuilder.get_config) ----
+   A class is KNs [("__id__", id); ("__dict__", KDict own); ("__mro__", KList entries)] where an entry is
+   KTuple [id; KDict dict] and the first entry is the class itself.  Attribute lookup walks the MRO. *)
+Definition cls_entry (id: kv) (d: list (kv * kv)) : kv := KTuple [id; KDict d].
+
+Definition mk_class (id: kv) (own: list (kv * kv)) (tail: list kv) : kv :=
+  KNs [("__id__", id); ("__dict__", KDict own); ("__mro__", KList (cls_entry id own :: tail))].
+
+Definition cls_mro (c: kv) : list kv :=
+  match c with KNs attrs => match ns_get attrs "__mro__" with Some (KList l) => l | _ => [] end | _ => [] end.
+
+Definition entry_id (e: kv) : kv := match e with KTuple [i; _] => i | _ => KNone end.
+
+Fixpoint mro_lookup (m: list kv) (name: kv) : option kv :=
+  match m with
+  | [] => None
+  | KTuple [_; KDict d] :: r => match d_get d name with Some v => Some v | None => mro_lookup r name end
+  | _ :: r => mro_lookup r name
+  end.
+
+(* getattr(cls, name, default) on a class *)
+Definition k_cls_getattr (c name dflt: kv) : kv :=
+  match mro_lookup (cls_mro c) name with Some v => v | None => dflt end.
+
+(* issubclass(a, b) *)
+Definition k_issubclass (a b: kv) : bool :=
+  match b with
+  | KNs attrs => match ns_get attrs "__id__" with
+                 | Some i => existsb (fun e => kv_eqb (entry_id e) i) (cls_mro a)
+                 | None => false end
+  | _ => false
+  end.
+
+(* type(name, (b1, b2), dict) for bases whose MROs share nothing (but `object`, which is not modelled):
+   the linearisation is the new class, then b1's MRO, then what b2's MRO adds *)
+Definition k_type3 (name bases dict: kv) : res kv :=
+  match bases, dict with
+  | KTuple [b1; b2], KDict d =>
+      let m1 := cls_mro b1 in
+      let m2 := filter (fun e => negb (existsb (fun e1 => kv_eqb (entry_id e1) (entry_id e)) m1)) (cls_mro b2) in
+      Ok (mk_class (KTuple [name; KStr "<merged>"]) d (m1 ++ m2))
+  | _, _ => Raise TypeError
+  end.
